@@ -38,6 +38,7 @@ fixed = [
  ("F35", "C08", "179267e", "UserMarker(S.sorted([...])).join(T) in the SQL engine: conform() replaced the user marker by a new Select around the sorted Select, which hid the un-sliced sort from the binary-operation check; the join was accepted and process() raised 'will not preserve row order'; also C11"),
  ("F36", "C08", "beeca1d", "UserRowFilter(...).apply(sql_rel.transferred_to(it), preferred_engine=sql): backtracking handed the operation (whose is_supported_by rejects SQL) to sql.Engine.append_unary, which raised NotImplementedError 'Unsupported operation type' instead of EngineError; also C03, C20"),
  ("F37", "C11", "74f5ed5", "S.with_only_columns({d,e}).sorted([...]).with_calculated_column(b, ...) where S has a column b: the nested subquery (F18 repair) buried the un-sliced sort; a join on top was accepted without the order-loss error and a later sort / slice saw an unordered subquery; also C05"),
+ ("F38", "C07", "dc200c7", "Processor.process(tree) where the tree holds a statically empty LeafRelation without payload (what the base Engine.get_doomed_payload provides) anywhere but directly beneath a transfer: AssertionError 'Match should be exhaustive'"),
  ("F27", "C08", "149b8d5", "identity_in_sql.join(rel_in_iteration) accepted: Select marker around an iteration-engine relation; process() AssertionError in Select.reapply; also C20 (engine mismatch not rejected), C14"),
  ("F26", "C14", "8ebe476", "sql_rel.transferred_to(sql) returned a new Select around sql_rel (not the relation itself), burying an un-sliced sort; found through C08 (order-loss error raised only by process())"),
 ]
